@@ -11,6 +11,8 @@
 #include "sweep_all.hpp"
 #include "progs.hpp"
 #include "collect.hpp"
+#include "successive.hpp"
+#include <optional>
 #include <thread>
 #include <atomic>
 #include <memory>
@@ -36,7 +38,7 @@ struct Barrier {
 struct LifeSpec { int kind; std::uint64_t seed; const Prog* prog; bool destroy_early; bool inject; int nest = 0; };
 
 struct Life {
-   std::unique_ptr<impl::Lexicon> lex;
+   std::optional<impl::Lexicon> lex;               // in place: a predecessor Lexicon occupies the very same storage first
    std::unique_ptr<impl::Translation_unit> unit;
    std::list<impl::Translation_unit> more_units;
    std::list<impl::Module> modules;
@@ -47,7 +49,8 @@ struct Life {
    std::map<const void*, std::string> tags;          // how each address was obtained (first route)
    void addr(const void* p, const std::string& how) { addrs.push_back(p); tags.emplace(p, how); }
    std::vector<std::pair<std::uint32_t, int>> ticks;     // (ticket, threads inside at that moment)
-   long long api_batches = 0, shadow_fails = 0, printed = 0;
+   long long api_batches = 0, shadow_fails = 0, printed = 0, mirror_requests = 0;
+   std::vector<std::string> mirror_fails;
 };
 
 struct Ticker {
@@ -89,9 +92,14 @@ void run_life(const LifeSpec& spec, Life& L)
 {
    g_inside.fetch_add(1, std::memory_order_relaxed);
    Ticker T(L, spec.seed ^ 0x5151, spec.inject);
-   L.lex = std::make_unique<impl::Lexicon>();
+   auto mirror_report = [&](const std::string& k, const std::string& m) { L.mirror_fails.push_back(k + ": " + m); };
+   // a predecessor: a Lexicon built, asked the mirror requests and destroyed in the storage the life's own Lexicon then takes
+   // (on this very thread): the life's Lexicon must behave as if it were the first one there
+   L.lex.emplace(); L.mirror_requests += mirror_requests(*L.lex, mirror_report); L.lex.reset();
+   L.lex.emplace();
    L.unit = std::make_unique<impl::Translation_unit>(*L.lex);
    impl::Lexicon& lex = *L.lex; const Lexicon& CL = lex;
+   L.mirror_requests += mirror_requests(lex, mirror_report);
    auto& unit = *L.unit;
    Rng rng(spec.seed);
    std::ostringstream tr;
@@ -301,6 +309,8 @@ static void body(Ctx& C)
          const auto& want = ref[std::size_t(assign[std::size_t(t)])];
          C.count("lives_on_threads"); C.count("api_batches", L.api_batches); C.count("printed_bytes", L.printed);
          C.eval(hash_mix(hash_mix(specs[std::size_t(assign[std::size_t(t)])].seed, std::uint64_t(T)), std::uint64_t(t)));
+         C.count("mirror_requests", L.mirror_requests);
+         for (auto& mf : L.mirror_fails) C.viol("successor-lexicon-not-alone:" + mf.substr(0, mf.find(':', 11)), "a Lexicon built where an earlier Lexicon of the same thread had lived did not behave as if alone: " + mf);
          if (L.shadow_fails) C.viol("shadow-fails-under-concurrency", "a factory-built node did not report its operands while other Lexicons were in use on other threads");
          if (L.trace != want) {
             std::size_t k = 0; while (k < L.trace.size() && k < want.size() && L.trace[k] == want[k]) ++k;
@@ -347,7 +357,7 @@ static void body(Ctx& C)
    }
    C.count("shared_addresses_checked", sharing_checked); C.count("shared_addresses_that_are_constants", shared_constants);
    C.count("api_ticks", total_ticks); C.count("api_ticks_with_two_or_more_threads_inside", overlap_ticks); C.count("thread_alternations_in_ticket_order", alternations);
-   for (auto k : { "rounds", "lives_on_threads", "api_batches", "printed_bytes", "shared_addresses_checked", "rounds_with_sharing_check", "rounds_destroying_while_others_construct", "trace_bytes_compared", "rounds_reference_before_threads", "rounds_threads_before_reference" }) C.need(k);
+   for (auto k : { "rounds", "lives_on_threads", "api_batches", "printed_bytes", "shared_addresses_checked", "rounds_with_sharing_check", "rounds_destroying_while_others_construct", "trace_bytes_compared", "rounds_reference_before_threads", "rounds_threads_before_reference", "mirror_requests" }) C.need(k);
    C.need("api_ticks_with_two_or_more_threads_inside", 100); C.need("thread_alternations_in_ticket_order", 100);
 }
 
